@@ -158,7 +158,7 @@ impl Filter for RecFilter {
         self.last = Some(m);
         self.count += 1;
         FilterUpdate {
-            next_update: if self.cfg.ret_update { Some(core::time::Duration::from_secs(1)) } else { None },
+            next_update: if self.cfg.ret_update { Some(core::time::Duration::new(1, 0)) } else { None },
             mean_delay: self.cfg.ret_delay,
         }
     }
@@ -168,7 +168,7 @@ impl Filter for RecFilter {
     fn update<C: Clock>(&mut self, _c: &mut C) -> FilterUpdate {
         self.updates += 1;
         FilterUpdate {
-            next_update: if self.cfg.ret_update { Some(core::time::Duration::from_secs(1)) } else { None },
+            next_update: if self.cfg.ret_update { Some(core::time::Duration::new(1, 0)) } else { None },
             mean_delay: self.cfg.ret_delay,
         }
     }
